@@ -15,6 +15,8 @@
  *   FC <char> <bucket> r r ...     a character record: its hash bucket and its otherRules chain (off:idx:op:len)
  *   BB / BC                        same for the backward buckets / cell records
  *   PF <n> r r ...  PB <n> ...     pass rule chains (off:idx:op:len)
+ *   (hyphenation automaton: REF hyphstates / hyphpattern / hyphtrans / hyphstate - a state number is a reference into
+ *    the states array that needs the array to be (number + 1) states long)
  *   RU off op charslen dotslen nofor noback    every rule object created by addRule (rule hook), read back from the image
  */
 #include "tbl.h"
@@ -178,6 +180,52 @@ dump(const char *tl, int ok) {
 	for (k = 0; k <= MAXPASS; k++) {
 		if (T->forPassRules[k]) dump_chain("PF", k, -1, T->forPassRules[k], 1, 0);
 		if (T->backPassRules[k]) dump_chain("PB", k, -1, T->backPassRules[k], 0, 0);
+	}
+	/* hyphenation automaton: the states array, every state's pattern string and transition array, and every state
+	 * number stored in a transition or as a fallback (an index into the states array: the reference needs the array
+	 * to reach that far) */
+	if (T->hyphenStatesArray) {
+		long nstates = 0;
+		int a;
+		for (a = 0; a < nalloc; a++)
+			if (allocs[a].off == T->hyphenStatesArray) nstates = allocs[a].size / (long)sizeof(HyphenationState);
+		printf(" ; REF hyphstates %u %ld", T->hyphenStatesArray, nstates > 0 ? (long)sizeof(HyphenationState) : 999999999L);
+		if (nstates > 0 && valid_off(T->hyphenStatesArray)) {
+			const HyphenationState *st = (const HyphenationState *)&T->ruleArea[T->hyphenStatesArray];
+			long i;
+			for (i = 0; i < nstates; i++) {
+				unsigned long top = 0; /* highest state number this state refers to */
+				int any = 0;
+				if (st[i].hyphenPattern) {
+					if (!valid_off(st[i].hyphenPattern))
+						printf(" ; REF hyphpattern %u 999999999", st[i].hyphenPattern);
+					else {
+						const char *pat = (const char *)&T->ruleArea[st[i].hyphenPattern];
+						long room = (used_units - (long)st[i].hyphenPattern) * 8, n = 0;
+						while (n < room && pat[n]) n++;
+						printf(" ; REF hyphpattern %u %ld", st[i].hyphenPattern, n < room ? n + 1 : 999999999L);
+					}
+				}
+				if (st[i].fallbackState != 0xffffffffu) {
+					top = st[i].fallbackState;
+					any = 1;
+				}
+				if (st[i].trans.offset) {
+					TranslationTableOffset to = st[i].trans.offset;
+					printf(" ; REF hyphtrans %u %ld", to, valid_off(to) ? (long)st[i].numTrans * (long)sizeof(HyphenationTrans) : 999999999L);
+					if (valid_off(to)) {
+						const HyphenationTrans *tr = (const HyphenationTrans *)&T->ruleArea[to];
+						long room = (used_units - (long)to) * 8 / (long)sizeof(HyphenationTrans);
+						int q;
+						for (q = 0; q < st[i].numTrans && q < room; q++) {
+							if (tr[q].newState > top) top = tr[q].newState;
+							any = 1;
+						}
+					}
+				}
+				if (any) printf(" ; REF hyphstate %u %lu", T->hyphenStatesArray, (top + 1) * (unsigned long)sizeof(HyphenationState));
+			}
+		}
 	}
 	/* every rule object that addRule created, as it is in the image now */
 	for (k = 0; k < nrules; k++) {
